@@ -93,17 +93,23 @@ HARNESSES = [
 ]
 
 # ---- stream-driven scanners of cppPreprocessor.cxx ------------------------------------------------------------------
-_IFGET = ['_ZN15CPPPreprocessor9InputFile3getEv', '_ZN15CPPPreprocessor9InputFile4peekEv']   # served from the harness byte buffer
+_IFGET = ['_ZN15CPPPreprocessor3getEv', '_ZN15CPPPreprocessor4peekEv']   # CPPPreprocessor::get/peek: modelled in the harness (one non-nested input)
 _TRIM = '_ZL11trim_blanksRKNSt7__cxx1112basic_stringIcSt11char_traitsIcESaIcEEE'
 
-def _scan(id_, entry, desc, domain, extra_h=(), q=3, t=4):
+# diagnostics are built as std::string from literals: "Unclosed string" (15 bytes, still in the small buffer); the comment /
+# digit-separator scanners produce longer ones ("digit separator cannot occur at end of digit sequence"), so that entry keeps
+# the heap path of std::string and gives the libc loops room for the concrete message text
+_MSG = {'ll_strlen.0': 64, 'll_memcpy.0': 64}
+
+def _scan(id_, entry, desc, domain, extra_h=(), q=4, t=6, heap=False):
     return {'id': id_, 'property': 'C15', 'src': 'c15_scanners.cxx', 'entry': entry,
-            'tus': _TUS, 'skip_ctors': _SKIP, 'cut': _CUT_HEAP_STRINGS + _IFGET, 'export': [_TRIM], 'models': ['noinline.c'],
+            'tus': _TUS, 'skip_ctors': _SKIP, 'cut': ([] if heap else _CUT_HEAP_STRINGS) + _IFGET, 'export': [_TRIM], 'models': ['noinline.c'],
+            'unwindset': (_MSG if heap else {'ll_strlen.0': 20, 'll_memcpy.0': 20}),
             'tuflags': _TUF, 'hflags': _GA + list(extra_h), 'nonterm_is_violation': True,
             'desc': desc, 'domain': domain,
             'oracle': 'no crash (uncaught exception, abort, libstdc++ assertion), no memory-safety failure, every loop ends within the input length',
-            'bounds': {'quick': {'defs': {'NMAX': q}, 'unwind': q + 3, 'cap': 600},
-                       'thorough': {'defs': {'NMAX': t}, 'unwind': t + 3, 'cap': 3000}}}
+            'bounds': {'quick': {'defs': {'NMAX': q}, 'unwind': q + 5, 'cap': 600},
+                       'thorough': {'defs': {'NMAX': t}, 'unwind': t + 5, 'cap': 3000}}}
 
 HARNESSES += [
  _scan('c15_scan_raw', 'harness_c15_scan_raw',
@@ -118,7 +124,7 @@ HARNESSES += [
        'every byte string of length 0..NMAX over {" \\ x 1 a newline}'),
  _scan('c15_comments', 'harness_c15_comments',
        'skip_c_comment, skip_cpp_comment (after the opening /* or //) and skip_digit_separator on the following bytes',
-       'every byte string of length 0..NMAX over {* / a \' 1 newline}; which scanner is a symbolic choice'),
+       'every byte string of length 0..NMAX over {* / a \' 1 newline}; which scanner is a symbolic choice', heap=True),
  _scan('c15_trim_blanks', 'harness_c15_trim_blanks',
        'static trim_blanks() of cppPreprocessor.cxx (directive arguments, diagnostics)',
        'every string of length 0..NMAX over {space a newline tab}', q=5, t=8),
